@@ -180,7 +180,7 @@ def parseTaxlabels (i : Nat) (s : RS) : R RS := do
     else
       let labels := labelsOf s.tns i
       let s ← (if hasLabel labels label then pure s
-               else if (match s.ntax with | some n => decide (labels.length ≥ n) | none => false) then perr .nexus   -- TooManyTaxaError
+               else if (match s.ntax with | some n => decide (labels.length ≥ n) | none => false) then perr .tooManyTaxa   -- TooManyTaxaError
                else pure { s with tns := setLabels s.tns i (labels ++ [label]) } : R RS)
       let (t, s) ← requireTok s
       pure (true, { s with stok := t })) { s with stok := t }
@@ -268,7 +268,7 @@ def parseTranslate (s : RS) : R RS := do
     let m := s.mapper
     let r : R (Nat × Mapper) := match findLabel m.ns tl with
       | some j => pure (j, m)
-      | none => if s.nsMutable then pure (m.ns.length, { m with ns := m.ns ++ [tl] }) else perr .nexus   -- UndefinedTaxonError
+      | none => if s.nsMutable then pure (m.ns.length, { m with ns := m.ns ++ [tl] }) else perr .undefinedTaxon   -- UndefinedTaxonError
     let (j, m) ← r
     let m := { m with tokens := (lower tt, j) :: m.tokens }
     let s := { s with mapper := m }
@@ -502,7 +502,7 @@ def rowFor (i : Nat) (label : List Char) (s : RS) : R (Nat × RS) := do
     | some j => pure (j, s)
     | none =>
       if labels.length < s.ntax.getD 0 then pure (labels.length, { s with tns := setLabels s.tns i (labels ++ [label]) })
-      else perr .nexus : R (Nat × RS))                               -- TooManyTaxaError
+      else perr .tooManyTaxa : R (Nat × RS))                         -- TooManyTaxaError
   match idxOf (fun x => x.1 == tx) s.rows 0 with
   | some r => pure (r, s)
   | none => pure (s.rows.length, { s with rows := s.rows ++ [(tx, 0)] })
